@@ -6,9 +6,14 @@
 //	bufferd random <out.ndjson> <seed> <segments> <ops>
 //	bufferd ops    <steps.json> <out.ndjson>     one explicit operation sequence (replay files), logged like random
 //
-// Content bytes are pairwise distinct inside one run of operations (1..250;
-// 0 = never content), so a byte value identifies a byte: that is what lets
-// the re-extension check say "this byte was cut off by CapLength".
+// Content bytes AND the bytes sitting in spare capacity behind a chunk are
+// pairwise distinct, non-zero, inside one run of operations (1..250), so a
+// byte value identifies a byte: that is what lets the re-extension check say
+// "this byte lies beyond a cap set by CapLength".  Vectorised views are built
+// both ways: every chunk its own array, or all chunks carved out of ONE backing
+// array, each followed by spare bytes of its own (arr[off:off+len:off+len+s]),
+// so a chunk can have capacity beyond its length without reaching into another
+// chunk's bytes.
 package main
 
 import (
@@ -36,6 +41,7 @@ type world struct {
 	objs    []*object
 	scratch []buffer.View // the caller-owned buffer handed to Clone
 	nextb   int
+	carve   bool // the next NewVV carves its chunks out of one backing array
 }
 
 func newWorld(scratchCap int) *world {
@@ -58,10 +64,17 @@ type obs struct {
 	Size int    `json:"size"` // Size() / len / UsedLength()
 	NV   int    `json:"nv"`   // number of views
 	Ext  []int  `json:"ext"`  // bytes that re-slicing each view to its capacity adds
-	lens []int
-	caps []int
+	// Views: the same per view (content, spare bytes up to the capacity)
+	Views []viewObs `json:"views"`
+	lens  []int
+	caps  []int
 	// panicked: reading the object through the API panicked
 	panicked string
+}
+
+type viewObs struct {
+	B   []int `json:"b"`
+	Ext []int `json:"ext"`
 }
 
 // observe reads one object through the exported API. A panic while reading (a
@@ -69,10 +82,10 @@ type obs struct {
 func observe(o *object) (x obs) {
 	defer func() {
 		if r := recover(); r != nil {
-			x = obs{Kind: o.kind, B: []int{}, BV: []int{}, Ext: []int{}, panicked: fmt.Sprint(r)}
+			x = obs{Kind: o.kind, B: []int{}, BV: []int{}, Ext: []int{}, Views: []viewObs{}, panicked: fmt.Sprint(r)}
 		}
 	}()
-	x = obs{Kind: o.kind, Ext: []int{}, lens: []int{}, caps: []int{}}
+	x = obs{Kind: o.kind, Ext: []int{}, Views: []viewObs{}, lens: []int{}, caps: []int{}}
 	var views []buffer.View
 	switch o.kind {
 	case "vv":
@@ -100,6 +113,7 @@ func observe(o *object) (x obs) {
 		x.caps = append(x.caps, cap(v))
 		full := []byte(v)[:cap(v)]
 		x.Ext = append(x.Ext, ints(full[len(v):])...)
+		x.Views = append(x.Views, viewObs{B: ints(v), Ext: ints(full[len(v):])})
 	}
 	return x
 }
@@ -147,28 +161,56 @@ func (w *world) exec(op string, o, n int, lens, slack []int) (out outcome) {
 	}
 	switch op {
 	case "NewVV":
+		// content bytes first (consecutive over the chunks), then the spare bytes chunk by chunk
 		var views []buffer.View
-		size := 0
+		size, spare := 0, 0
+		sl := func(i int) int {
+			if i < len(slack) {
+				return slack[i]
+			}
+			return 0
+		}
+		for i, l := range lens {
+			size += l
+			spare += sl(i)
+		}
+		content := w.fresh(size)
+		extra := w.fresh(spare)
 		if len(lens) > 0 {
 			views = make([]buffer.View, 0, len(lens))
 		}
+		var backing []byte
+		if w.carve {
+			backing = make([]byte, 0, size+spare)
+		}
 		for i, l := range lens {
-			s := 0
-			if i < len(slack) {
-				s = slack[i]
+			s := sl(i)
+			var arr []byte
+			if w.carve {
+				off := len(backing)
+				backing = append(backing, content[:l]...)
+				backing = append(backing, extra[:s]...)
+				arr = backing[off : off+l : off+l+s]
+			} else {
+				arr = make([]byte, l+s)
+				copy(arr, content[:l])
+				copy(arr[l:], extra[:s])
+				arr = arr[:l]
 			}
-			arr := make([]byte, l, l+s) // slack bytes stay 0: never content
-			copy(arr, w.fresh(l))
+			content, extra = content[l:], extra[s:]
 			views = append(views, buffer.View(arr))
-			size += l
 		}
 		w.add(&object{kind: "vv", vv: buffer.NewVectorisedView(size, views)})
 	case "NewView":
-		v := buffer.NewView(n)
-		d := w.fresh(n)
+		s := 0
+		if len(slack) > 0 {
+			s = slack[0]
+		}
+		v := buffer.NewView(n + s)
+		d := w.fresh(n + s)
 		copy(v, d)
-		out.data = ints(d)
-		w.add(&object{kind: "view", v: v})
+		out.data = ints(d[:n])
+		w.add(&object{kind: "view", v: v[:n]})
 	case "NewPrep":
 		w.add(&object{kind: "prep", p: buffer.NewPrependable(n)})
 	case "VTrim":
@@ -360,6 +402,19 @@ func compare(w *world, st map[string]interface{}, pi, si int, res *vh.Result) bo
 	return bad
 }
 
+// slackOf: the model's NewVV(lens, sl): sl = 0 separate exact arrays, sl > 0 all chunks
+// carved from one backing array with sl spare bytes each.
+func slackOf(k, sl int) ([]int, bool) {
+	if sl == 0 {
+		return nil, false
+	}
+	out := make([]int, k)
+	for i := range out {
+		out[i] = sl
+	}
+	return out, true
+}
+
 func graph(path string) {
 	var g script
 	vh.LoadJSON(path, &g)
@@ -375,11 +430,15 @@ func graph(path string) {
 			src := g.States[prev]
 			w.nextb = vh.Int(src["nextb"])
 			o, n := 0, 0
-			var lens []int
+			var lens, slack []int
 			switch st.Act {
 			case "NewVV":
 				lens = vh.Ints(st.Args[0])
-			case "NewPrep", "NewView":
+				slack, w.carve = slackOf(len(lens), vh.Int(st.Args[1]))
+			case "NewView":
+				n = vh.Int(st.Args[0])
+				slack = []int{vh.Int(st.Args[1])}
+			case "NewPrep":
 				n = vh.Int(st.Args[0])
 			default:
 				o = vh.Int(st.Args[0])
@@ -387,7 +446,7 @@ func graph(path string) {
 					n = vh.Int(st.Args[1])
 				}
 			}
-			out := w.exec(st.Act, o, n, lens, nil)
+			out := w.exec(st.Act, o, n, lens, slack)
 			bad := false
 			if out.panicked != "" {
 				res.Mismatches = append(res.Mismatches, vh.Mismatch{Path: pi, Step: si, Kind: "property",
@@ -460,9 +519,14 @@ func (w *world) snapshot() []obs {
 	return out
 }
 
-func pickCount(r *rand.Rand, size int, first int, lo int) int {
+// pickCount: counts biased to the interesting places - below 0, 0, the size, beyond it,
+// and exactly on / one off a chunk boundary (bounds = cumulative chunk lengths).
+func pickCount(r *rand.Rand, size int, first int, lo int, bounds []int) int {
 	if size < 0 { // only a corrupted object says so; keep the generator alive
 		size = 0
+	}
+	if len(bounds) > 0 && r.Intn(3) == 0 {
+		first = bounds[r.Intn(len(bounds))]
 	}
 	var n int
 	switch r.Intn(10) {
@@ -511,8 +575,10 @@ func logEvent(tr *vh.Trace, w *world, op string, o, n int, slack []int, oc outco
 	case "NewVV":
 		ev["chunks"] = chunks
 		ev["slack"] = slack
+		ev["carved"] = w.carve
 	case "NewView":
 		ev["data"] = oc.data
+		ev["slack"] = slack
 	case "VRemoveFirst":
 		ev["k"] = oc.k
 	case "VFirst":
@@ -569,8 +635,20 @@ func ops(in, out string) {
 		ok := true
 		switch op {
 		case "NewVV":
-			ok = w.newVV(tr, vh.Ints(st[1]), nil).panicked == ""
-		case "NewPrep", "NewView":
+			lens := vh.Ints(st[1])
+			var slack []int
+			w.carve = false
+			if len(st) > 2 {
+				slack, w.carve = slackOf(len(lens), vh.Int(st[2]))
+			}
+			ok = w.newVV(tr, lens, slack).panicked == ""
+		case "NewView":
+			n, slack := vh.Int(st[1]), []int{0}
+			if len(st) > 2 {
+				slack[0] = vh.Int(st[2])
+			}
+			ok = logEvent(tr, w, op, 0, n, slack, w.exec(op, 0, n, nil, slack), nil)
+		case "NewPrep":
 			n := vh.Int(st[1])
 			ok = logEvent(tr, w, op, 0, n, nil, w.exec(op, 0, n, nil, nil), nil)
 		default:
@@ -607,7 +685,8 @@ func random(out string, seed int64, segments, nops int) {
 			k := r.Intn(11) // 0..10 chunks
 			lens := make([]int, k)
 			slack := make([]int, k)
-			fd := r.Intn(3) == 0 // sizes shaped like the fd-based endpoint's BufConfig (scaled down)
+			fd := r.Intn(3) == 0    // sizes shaped like the fd-based endpoint's BufConfig (scaled down)
+			carve := r.Intn(2) == 0 // all chunks out of one backing array, each with spare bytes behind it
 			cfg := []int{1, 2, 2, 4, 4, 8, 8, 16, 16, 32}
 			tot := 0
 			for i := range lens {
@@ -623,27 +702,38 @@ func random(out string, seed int64, segments, nops int) {
 				}
 				lens[i] = l
 				tot += l
-				if r.Intn(5) == 0 {
+				if carve {
+					slack[i] = 1 + r.Intn(2)
+				} else if r.Intn(4) == 0 {
 					slack[i] = 1 + r.Intn(3)
 				}
+				if tot+slack[i] > budget {
+					slack[i] = 0
+				}
+				tot += slack[i]
 			}
+			w.carve = carve
 			oc := w.newVV(tr, lens, slack)
 			if oc.panicked != "" {
 				dead = true
 			}
 			if fd && oc.panicked == "" { // the dispatcher caps the views to what was read
 				o := len(w.objs)
-				n := r.Intn(tot + 2)
+				n := r.Intn(w.objs[o-1].vv.Size() + 2)
 				logop("VCap", o, n, nil, nil, w.exec("VCap", o, n, nil, nil), nil)
 			}
 			return true
 		}
 		newView := func() {
 			n := r.Intn(12)
-			if w.nextb+n > maxByte {
-				n = 0
+			slack := []int{0}
+			if r.Intn(2) == 0 {
+				slack[0] = 1 + r.Intn(3)
 			}
-			logop("NewView", 0, n, nil, nil, w.exec("NewView", 0, n, nil, nil), nil)
+			if w.nextb+n+slack[0] > maxByte {
+				n, slack[0] = 0, 0
+			}
+			logop("NewView", 0, n, nil, slack, w.exec("NewView", 0, n, nil, slack), nil)
 		}
 		newPrep := func() {
 			n := r.Intn(24)
@@ -679,12 +769,17 @@ func random(out string, seed int64, segments, nops int) {
 			case "vv":
 				size := x.vv.Size()
 				first := len(x.vv.First())
+				var bounds []int
+				for acc, _i := 0, 0; _i < len(x.vv.Views()); _i++ {
+					acc += len(x.vv.Views()[_i])
+					bounds = append(bounds, acc)
+				}
 				c := r.Intn(20)
 				switch {
 				case c < 6:
-					op, n = "VTrim", pickCount(r, size, first, -1)
+					op, n = "VTrim", pickCount(r, size, first, -1, bounds)
 				case c < 10:
-					op, n = "VCap", pickCount(r, size, first, -1)
+					op, n = "VCap", pickCount(r, size, first, -1, bounds)
 				case c < 12:
 					op = "VRemoveFirst"
 				case c < 15:
@@ -706,9 +801,9 @@ func random(out string, seed int64, segments, nops int) {
 				c := r.Intn(10)
 				switch {
 				case c < 4:
-					op, n = "WTrim", pickCount(r, size, size/2, 0)
+					op, n = "WTrim", pickCount(r, size, size/2, 0, nil)
 				case c < 7:
-					op, n = "WCap", pickCount(r, size, size/2, 0)
+					op, n = "WCap", pickCount(r, size, size/2, 0, nil)
 				case c < 9:
 					op = "WToVV"
 				default:
